@@ -1,5 +1,7 @@
 SPECIFICATION Spec
-CONSTANT MaxLen = 4
-INVARIANTS Honest SegIDInSync
+CONSTANTS
+  MaxLen = 4
+  TamperTopos = {1, 2, 3}
+INVARIANTS Honest SegIDInSync NoDeliveryAfterTamper
 PROPERTIES Frame
 CHECK_DEADLOCK FALSE
